@@ -192,7 +192,14 @@ class time_zone {
   template <typename D>
   bool prev_transition(const time_point<D>& tp,
                        civil_transition* trans) const {
-    return prev_transition(detail::split_seconds(tp).first, trans);
+    // A transition at the start of the second containing tp precedes tp
+    // unless tp is itself that whole second.
+    const auto ss = detail::split_seconds(tp);
+    time_point<seconds> sec = ss.first;
+    if (ss.second != D::zero() && sec != time_point<seconds>::max()) {
+      sec += seconds(1);
+    }
+    return prev_transition(sec, trans);
   }
 
   // version() and description() provide additional information about the
